@@ -24,7 +24,7 @@ QUICK = {
     'C18/int_width': [dict(env={}, timeout=120, label='width: every int (unbounded), signed: bool')],
     'C18/out_decl_int_width': [dict(env={'XH_N': 2}, timeout=200, label='int{size [-]dd} through _parse_out_decl, <=2 digits')],
     'C18/out_decl_str_size': [dict(env={'XH_N': 3}, timeout=200, label='str[[-]ddd] / unterminated str through _parse_out_decl, <=3 digits')],
-    'C18/regex_repeat_bounds': [dict(env={'XH_N': 1}, timeout=600, label='{n} {n,} {n,m}: n, m in -9..9')],
+    'C18/regex_repeat_bounds': [dict(env={'XH_N': 1}, parts=3, timeout=600, label='{n} {n,} {n,m}: n, m in -9..9')],
     'C18/whitespace_marker': [dict(env={'XH_N': 4}, timeout=300, label='source <=4 chars (any code point), every non-blank position')],
 }
 THOROUGH = {
@@ -35,7 +35,7 @@ THOROUGH = {
     'C18/int_width': [dict(env={}, timeout=120, label='width: every int (unbounded), signed: bool')],
     'C18/out_decl_int_width': [dict(env={'XH_N': 3}, timeout=400, label='int{size [-]ddd} through _parse_out_decl, <=3 digits')],
     'C18/out_decl_str_size': [dict(env={'XH_N': 4}, timeout=400, label='str[[-]dddd] / unterminated str through _parse_out_decl, <=4 digits')],
-    'C18/regex_repeat_bounds': [dict(env={'XH_N': 1}, timeout=600, label='{n} {n,} {n,m}: n, m in -9..9')],
+    'C18/regex_repeat_bounds': [dict(env={'XH_N': 1}, parts=3, timeout=600, label='{n} {n,} {n,m}: n, m in -9..9')],
     'C18/whitespace_marker': [dict(env={'XH_N': 5}, timeout=900, label='source <=5 chars (any code point), every non-blank position')],
 }
 
